@@ -11,7 +11,7 @@ def run(tier, seed):
     # verdict deviations of C01 that are live are the only other explanations accepted
     c01 = schemafam.live_devs(check, vh, "Trace_Schema", common.Known().devs("C01"), report=False)
     devs = sorted(set(live) | (set(c01) & set(live)))
-    args = ["-seed", seed, "-bases", 5 if quick else 0, "-edits", 90 if quick else 150, "-double", 0.3, "-raw"]
+    args = ["-seed", seed, "-bases", 5 if quick else 0, "-edits", 90 if quick else 100, "-double", 0.3, "-raw"]
     fails = specfam.run_spec(check, vh, "edits", args, ["C02"], devs, shards=8 if quick else 14)
     specfam.report(check, fails, live)
     check.coverage["rule"] = ("base documents (hand-written + fixtures in the thorough tier) altered by 1-2 structural edits chosen over all JSON pointers (delete, null, retype, rename, $ref to nowhere, siblings of "
